@@ -1,7 +1,7 @@
 #!/usr/bin/env python3
 """Evaluate one seeded change against the checks.
 
-usage: tools/seed_eval.py <PROPERTY> <patch.diff> <demo.rs> [--checks C01,C08,...] [--keep-as NAME]
+usage: tools/seed_eval.py <PROPERTY> <patch.diff> <demo.rs> [--checks C01,C08,...] [--keep-as NAME] [--features F] [--cfg-verif]
 
 Steps (all in a scratch worktree of /repo outside /repo and /verif, removed afterwards):
   1. the demonstration passes on the unchanged tree;
@@ -41,6 +41,7 @@ def main():
     env = dict(os.environ, CARGO_NET_OFFLINE="true", CARGO_TARGET_DIR=tgt)
     if "--cfg-verif" in args:
         env["RUSTFLAGS"] = "--cfg quandary_verif"
+    feat = (" --features " + args[args.index("--features") + 1]) if "--features" in args else ""
     try:
         sh(["git", "-C", "/repo", "worktree", "remove", "--force", wt])
         shutil.rmtree(wt, ignore_errors=True)
@@ -48,7 +49,7 @@ def main():
         assert rc == 0, out
         os.makedirs(wt + "/tests", exist_ok=True)
         shutil.copy(demo, wt + "/tests/seed_demo.rs")
-        rc, out = sh("cargo test --offline --test seed_demo 2>&1 | tail -15", cwd=wt, env=env)
+        rc, out = sh(f"cargo test --offline{feat} --test seed_demo 2>&1 | tail -15", cwd=wt, env=env)
         r = test_results(out)
         summary["demo_passes_unchanged"] = bool(r) and all(c == 0 for _, _, c in r)
         if not summary["demo_passes_unchanged"]:
@@ -58,7 +59,7 @@ def main():
         if rc != 0:
             summary["apply_output"] = out[-800:]
             print(json.dumps(summary, indent=1)); return 1
-        rc, out = sh("cargo test --offline --test seed_demo 2>&1 | tail -25", cwd=wt, env=env)
+        rc, out = sh(f"cargo test --offline{feat} --test seed_demo 2>&1 | tail -25", cwd=wt, env=env)
         r = test_results(out)
         summary["demo_fails_with_patch"] = bool(r) and any(c > 0 for _, _, c in r)
         summary["compiles"] = "error: could not compile" not in out and "error[E" not in out
